@@ -41,6 +41,8 @@ type Workload struct {
 	Ports          []CPort           `json:",omitempty"`
 	// SplitContainers: the container ports are spread over two containers of the pod template
 	SplitContainers bool `json:",omitempty"`
+	// NCont: the container ports are dealt round-robin over this many containers (0 = see SplitContainers)
+	NCont int `json:",omitempty"`
 	// Helper: a container that declares no ports in the pod template: 1 = listed first, 2 = listed last, 3 = an init
 	// container (0 = none). Irrelevant to connectivity.
 	Helper int `json:",omitempty"`
